@@ -76,7 +76,16 @@ pub fn check_image(c: &ImgCase, pixels: &[u32], region: Option<(i32, i32, i32, i
         for px in rx0.max(0)..rx1.min(c.w) {
             let (xx, yy) = m.apply(px as f64 + 0.5, py as f64 + 0.5);
             // conversion of the matrix to 16.16 (each entry rounded to 2^-17) and f32 composition error
-            let e = if exact_m { 0. } else { (px + py + 2) as f64 / 65536. + 4e-6 * (1. + xx.abs() + yy.abs() + mag * (px + py) as f64) };
+            // a pure translation by multiples of 2^-16 is carried through the fixed-point pipeline exactly,
+            // except for the conversion's bias of at most 2^-16 towards larger coordinates
+            let dyadic = |v: f64| (v * 65536.).fract() == 0. && v.abs() < 30000.;
+            let pure_translation = m.a == 1. && m.b == 0. && m.c == 0. && m.d == 1. && dyadic(m.e) && dyadic(m.f) && c.ctm.m11 == 1. && c.ctm.m22 == 1. && c.ctm.m12 == 0. && c.ctm.m21 == 0. && c.src_t.m11 == 1. && c.src_t.m22 == 1. && c.src_t.m12 == 0. && c.src_t.m21 == 0.;
+            let near_top = |v: f64| v - v.floor() > 1. - 4. / 65536.;
+            let e = if exact_m || (pure_translation && !c.bilinear && !near_top(xx) && !near_top(yy)) {
+                0.
+            } else {
+                (px + py + 2) as f64 / 65536. + 4e-6 * (1. + xx.abs() + yy.abs() + mag * (px + py) as f64)
+            };
             let obs = pixels[(py * c.w + px) as usize];
             let oc = ch(obs);
             let mut ok = false;
@@ -178,7 +187,7 @@ fn axis(rng: &mut Rng, range: i64) -> f32 {
     }
 }
 
-fn gen_case(rng: &mut Rng) -> ImgCase {
+pub fn gen_case(rng: &mut Rng) -> ImgCase {
     let w = rng.int(2, 24) as i32;
     let h = rng.int(2, 24) as i32;
     let iw = rng.int(1, 9) as i32;
@@ -221,7 +230,7 @@ fn gen_case(rng: &mut Rng) -> ImgCase {
     ImgCase { w, h, iw, ih, data, repeat: rng.chance(0.5), bilinear: rng.chance(0.5), src_t, ctm, alpha }
 }
 
-fn case_desc(c: &ImgCase) -> J {
+pub fn case_desc(c: &ImgCase) -> J {
     let mut d = J::obj();
     d.set("surface", J::s(&format!("{}x{}", c.w, c.h)));
     d.set("image", J::s(&format!("{}x{} {} {}", c.iw, c.ih, if c.repeat { "Repeat" } else { "Pad" }, if c.bilinear { "Bilinear" } else { "Nearest" })));
